@@ -78,8 +78,8 @@ def subjects(tier):
 def histories(tier):
     hs = [()] + [(a,) for a in OPS] + [(a, b) for a in OPS for b in OPS]
     if tier == "thorough":
-        core3 = ["gaps", "rev", "stack_off", "rate", "full_ln", "append"]
-        hs += [(a, b, c) for a in core3 for b in core3 for c in core3]
+        # every history of three operations over the whole alphabet
+        hs += [(a, b, c) for a in OPS for b in OPS for c in OPS]
     return hs
 
 
